@@ -14,8 +14,8 @@ import (
 // C10: the parse depends only on the non-elided tokens.
 
 func c10Opts(r *mon.RNG, i int) *gram.GenOpts {
-	prof := []int{gram.ProfStateful, gram.ProfStateful, gram.ProfLower, gram.ProfDefault}[i%4]
-	o := &gram.GenOpts{Profile: prof, MaxProds: 4, Budget: 12 + r.Intn(12), Depth: 2 + r.Intn(3), TokKinds: false, Unions: true,
+	prof := []int{gram.ProfStateful, gram.ProfStateful, gram.ProfLower, gram.ProfDefault, gram.ProfScanCfg}[i%5]
+	o := &gram.GenOpts{Profile: prof, MaxProds: 4, Budget: 12 + r.Intn(12), Depth: 2 + r.Intn(3), TokKinds: i%3 == 0, Unions: true,
 		SharePrefix: 7, CaptureBias: 5, SubBias: 3, AllowBang: true}
 	if i%5 == 4 {
 		// second half of the property: the grammar names the elided type explicitly
@@ -175,11 +175,17 @@ func c10Child(c *mon.Child) {
 					what := ""
 					if (rr.Err == nil) != (first.Err == nil) {
 						what = fmt.Sprintf("accepted=%v with spacing #0 but accepted=%v with spacing #%d", first.Err == nil, rr.Err == nil, s)
-					} else if rr.Err == nil && rr.AST.Canon(false) != first.AST.Canon(false) {
-						what = fmt.Sprintf("captured fields differ between spacing #0 and #%d: %s vs %s", s, trunc(first.AST.Canon(false), 300), trunc(rr.AST.Canon(false), 300))
+					} else if rr.Err == nil && rr.AST.CanonModuloElided(el) != first.AST.CanonModuloElided(el) {
+						what = fmt.Sprintf("captured fields differ between spacing #0 and #%d: %s vs %s", s, trunc(first.AST.CanonModuloElided(el), 300), trunc(rr.AST.CanonModuloElided(el), 300))
 					}
 					if what != "" {
-						c.Violation("", key, fmt.Sprintf("%s | lookahead=%s | grammar: %s | inputs: %q vs %q", what, kName(k), gdesc, texts[0], text),
+						class := ""
+						if rr.Err == nil && first.Err == nil && rr.AST.CanonNoTokens() == first.AST.CanonNoTokens() &&
+							(rr.AST.TokenFieldStartsElided(el) || first.AST.TokenFieldStartsElided(el)) {
+							// only Token-typed fields differ, and one of them holds an elided token: the catalogued capture-start defect
+							class = "token-capture-starts-at-elided-token"
+						}
+						c.Violation(class, key, fmt.Sprintf("%s | lookahead=%s | grammar: %s | inputs: %q vs %q", what, kName(k), gdesc, texts[0], text),
 							map[string]interface{}{"grammar": g, "input_a": texts[0], "input_b": text, "difference": what})
 						break
 					}
@@ -220,11 +226,11 @@ func c10Child(c *mon.Child) {
 func init() {
 	Register(&mon.Spec{
 		ID:          "C10",
-		Rule:        "case = (generated grammar, token string) rendered under 8 (thorough 14) spacings: none/one/many spaces, newlines, CR/LF, comments before, between and after tokens. For grammars that never name an elided type and have no Token-typed captures: accept/reject and all captured fields must be identical for every spacing under each lookahead in {0,1,2,5,MaxLookahead,unlimited} (the harness first checks with Parser.Lex that the non-elided (type,text) sequences really are equal). For grammars that name WS/Comment explicitly: result compared with the reference semantics' leaf rule (first such token before the next ordinary token). Non-trivial: an elided run lies next to a position where the reference trace abandoned an attempt (first half) / an explicitly named elided token was matched (second half). Distinct by (grammar IR, token string[, text, k]).",
-		Assumptions: []string{"lexer.Token-typed captures are excluded (positions inherently depend on spacing)"},
+		Rule:        "case = (generated grammar, token string) rendered under 8 (thorough 14) spacings: none/one/many spaces, newlines, CR/LF, comments before, between and after tokens. For grammars that never name an elided type (Token-typed captures compared by type and text; elided tokens inside a []lexer.Token run, which lie between matched tokens, are ignored; a leading one is not): accept/reject and all captured fields must be identical for every spacing under each lookahead in {0,1,2,5,MaxLookahead,unlimited} (the harness first checks with Parser.Lex that the non-elided (type,text) sequences really are equal). For grammars that name WS/Comment explicitly: result compared with the reference semantics' leaf rule (first such token before the next ordinary token). Non-trivial: an elided run lies next to a position where the reference trace abandoned an attempt (first half) / an explicitly named elided token was matched (second half). Distinct by (grammar IR, token string[, text, k]).",
+		Assumptions: []string{"lexer.Token-typed captures are compared by (type, text) only: positions inherently depend on spacing"},
 		Batches:     func(t string) int { return pick(t, 4, 16) },
 		Floor:       func(t string) int { return pick(t, 500, 10000) },
-		TimeoutSec:  func(t string) int { return pick(t, 900, 3600) },
+		TimeoutSec:  func(t string) int { return pick(t, 300, 3600) },
 		Prepare:     gramPrepare("C10", func(t string) int { return pick(t, 80, 200) }, c10Opts, nil, false),
 		Child:       c10Child,
 	})
